@@ -83,8 +83,8 @@ func buildShape(name string, n int, salt int) (enc []byte, decode func(src []byt
 		for i := range vals {
 			vals[i] = fv(i)
 		}
-		step := wt.Duration([]int32{1, 60, 0x7fffffff / 4}[salt%3])
-		from := wt.Timestamp([]uint32{0, 1600000000, 5}[salt%3])
+		step := wt.Duration([]int32{1, 60, 0x7fffffff / 4, 1 << 30}[salt%4])
+		from := wt.Timestamp([]uint32{0, 1600000000, 5, 0}[salt%4]) // salt%4 == 3: the series spans 2^31 seconds or more
 		ts := wt.NewTimeSeries(from, from.Add(step*wt.Duration(n)), step, vals)
 		return ts.AppendTo(nil), func(src []byte) ([]byte, wt.AppenderTo, error) {
 			o := &wt.TimeSeries{}
@@ -313,6 +313,10 @@ func countVal(c string, present uint64) uint64 {
 		return 0x15555556
 	case "wrap64":
 		return 0x1555555555555556
+	case "sign64":
+		return 0x8000000000000000
+	case "max64":
+		return 0xFFFFFFFFFFFFFFFF
 	}
 	panic(c)
 }
@@ -698,7 +702,8 @@ func runHostile(args []string) int {
 			what = "header bit flips"
 		case 2: // extreme value in a header field
 			ext := []uint32{0, 1, 0x7fffffff, 0x80000000, 0xffffffff, 0x15555556, 0x0aaaaaab}
-			p := 4 * rnd.Intn(4+3*2)
+			hw := 4 + 3*int(binary.BigEndian.Uint32(data[12:]))
+			p := 4 * rnd.Intn(hw)
 			if p+4 <= len(data) {
 				binary.BigEndian.PutUint32(data[p:], ext[rnd.Intn(len(ext))])
 			}
